@@ -14,7 +14,7 @@ use serde_json::{json, Value};
 pub static ENGINE: Engine = Engine {
     prop: "C11",
     level: "exploration",
-    rule: "every formula with <= 3 (4) AST nodes over the CLI alphabet that mentions 2..4 distinct names x EVERY ordering text of a family: all permutations, all ordered strict subsets, supersets with one unused name at every position and two unused names around, duplicated names, and decorated texts (commas, comments, keywords, symbols, numbers between the names). Real binary: `-o <file> -t` = reference table with the header in the prescribed order; `-r` lists the formula's names in that order; every edge of the `-d` export goes from an earlier to a later variable; feeding the `-r` output back through `-o` reproduces the `-t` output byte for byte. API: ParsedFormula::new(text, Some(ordering)) with distinct non-contiguous ids for every permutation (+ an unused symbol) and for every ordered strict subset as a partial ordering: truth table by name = reference, free_vars / vars sorted by id in the prescribed order, to_free_index consistent, diagram ordered by id. distinct = distinct (formula, ordering, output kind)",
+    rule: "every formula with <= 3 (4) AST nodes over the CLI alphabet that mentions 2..4 distinct names x EVERY ordering text of a family: all permutations, all ordered strict subsets, supersets with one unused name at every position and two unused names around, duplicated names, and decorated texts (commas, comments, keywords, symbols, numbers between the names). Real binary: `-o <file> -t` = reference table with the header in the prescribed order; `-r` lists the formula's names in that order; every edge of the `-d` export goes from an earlier to a later variable; feeding the `-r` output back through `-o` reproduces the `-t` output byte for byte. API: ParsedFormula::new(text, Some(ordering)) with distinct non-contiguous ids for every permutation (+ an unused symbol) and for every ordered strict subset as a partial ordering: truth table by name = reference, free_vars / vars sorted by id in the prescribed order, to_free_index consistent, diagram ordered by id. Large ordering files: the used names scattered through 70 / 130 / 300 names, and behind / in front of 12 000 unused names (80 KiB). distinct = distinct (formula, ordering, output kind)",
     assumptions: &["prescribed order = names of the ordering text in order of first appearance, then the formula's remaining names in order of first appearance", "reference semantics of harness/src/refl.rs"],
     max_shards: 64,
     run,
@@ -428,6 +428,32 @@ fn run(ctx: &mut Ctx) {
             if ctx.mine(idx) {
                 check_cli(ctx, &a, f, &o, true);
                 ctx.count("cli_cases", 1);
+            }
+        }
+    }
+    // large ordering files: the used names scattered through 70 / 130 / 300 names (so that they
+    // get positions beyond 64), and behind / in front of 12 000 unused names (an 80 KiB file)
+    for f in ["(a & -b) | c", "exists b # (a ^ b) & c", "[a, b, c] = 2", "a"] {
+        let Ok(a) = refl::parse(f) else { continue };
+        let used: Vec<String> = a.names().into_iter().rev().collect();
+        let mut ords: Vec<String> = vec![];
+        for total in [70usize, 130, 300] {
+            let mut l: Vec<String> = (0..total).map(|i| format!("unused_{i}")).collect();
+            for (k, u) in used.iter().enumerate() {
+                let pos = [2usize, total - 3, total - 1][k % 3].min(l.len());
+                l.insert(pos, u.clone());
+            }
+            ords.push(l.join("\n"));
+        }
+        let many: String = (0..12000).map(|i| format!("u{i:05}")).collect::<Vec<_>>().join(" ");
+        ords.push(format!("{many}\n{}", used.join(" ")));
+        ords.push(format!("{}\n{many}", used.join(" ")));
+        for o in ords {
+            idx += 1;
+            if ctx.mine(idx) {
+                check_cli(ctx, &a, f, &o, true);
+                ctx.count("cli_cases", 1);
+                ctx.count("large_ordering_files", 1);
             }
         }
     }
